@@ -78,6 +78,21 @@ def handle (op : String) (j : Json) : Option Json :=
         ("loaded", Json.arr (loaded.map dpJson).toArray),
         ("runs", natArr runs), ("benches", natArr benches),
         ("todo", Json.arr (cfg.map (fun c => Json.arr #[Json.num c.run, natArr (todo loaded c)])).toArray)])
+  | "c09.session" => do
+      -- what a session appends (writer model), as record names
+      let benches ← (← getArr? j "benches").toList.mapM asNat?
+      let runs ← (← getArr? j "runs").toList.mapM asNat?
+      let glued ← getBool? j "glued"
+      let empty ← getBool? j "empty"
+      let ds ← (← getArr? j "dps").toList.mapM (fun e => do
+        let a ← asArr? e
+        let crits ← (← asArr? (← a[4]?)).toList.mapM (fun c => do
+          let ca ← asArr? c
+          pure ((← asStr? (← ca[0]?)).toList, (← asStr? (← ca[1]?)).toList))
+        pure (⟨← asNat? (← a[0]?), ← asNat? (← a[1]?), ← asNat? (← a[2]?), ← asNat? (← a[3]?), crits,
+               (← asStr? (← a[5]?)).toList⟩ : WDP))
+      let recs := sessionRecs glued empty ⟨benches, runs⟩ ds
+      pure (Json.mkObj [("recs", Json.arr (recs.map (fun r => Json.str (recName r))).toArray)])
   | "c09.classify" => do
       -- one line → record name
       let line ← getStr? j "line"
